@@ -132,6 +132,20 @@ def replay(item):
         h = extract_seal(sealed)["HASH"]
         flipped = ("0" if h[5] != "0" else "1")
         add("hash_char_changed", status_of(T.replace(h, h[:5] + flipped + h[6:])))
+        add("hash_last_char_dropped", status_of(T.replace(h, h[:-1])))
+        add("hash_char_appended", status_of(T.replace(h, h + "0")))
+        add("hash_prefix_only", status_of(T.replace(h, h[:16])))
+        add("hash_emptied", status_of(T.replace('"' + h + '"', '""') if ('"' + h + '"') in T else T.replace(h, '""')))
+        # content added at the very end of the body, behind the seal section
+        tl = T.split("\n")
+        e2 = max(k for k, ln in enumerate(tl) if ln == "===END===")
+        behind = "\n".join(tl[:e2] + ["ADDED_LATER::1"] + tl[e2:])
+        add("node_appended_behind_seal", status_of(behind))
+        fpb = os.path.join(_dir(), "b%d.oct.md" % os.getpid())
+        with open(fpb, "w", encoding="utf-8", newline="") as f:
+            f.write(behind)
+        rb = CliRunner().invoke(cli, ["validate", fpb, "--verify-seal", "--require-seal"], catch_exceptions=True)
+        add("cli_node_appended_behind_seal", "INVALID" if rb.exit_code == 1 and "Seal: INVALID" in rb.output else "exit%d" % rb.exit_code)
         # CLI: seal the file, then verify it
         fp = os.path.join(_dir(), "s%d.oct.md" % os.getpid())
         op = os.path.join(_dir(), "o%d.oct.md" % os.getpid())
